@@ -641,7 +641,15 @@ DecompressJpegRectBPP(rfbClient* client, int x, int y, int w, int h)
 
   if(client->GotJpeg != NULL)
     return client->GotJpeg(client, compressedData, compressedLen, x, y, w, h);
-  
+
+  /* tjDecompress() takes a width or height of 0 as "use the size of the image": an empty
+     rectangle must not let the server choose how much of the framebuffer is written */
+  if (w <= 0 || h <= 0) {
+    rfbClientLog("Tight encoding: JPEG rectangle of zero size.\n");
+    free(compressedData);
+    return FALSE;
+  }
+
   if (!client->tjhnd) {
     if ((client->tjhnd = tjInitDecompress()) == NULL) {
       rfbClientLog("TurboJPEG error: %s\n", tjGetErrorStr());
